@@ -50,10 +50,11 @@ func modelCheck(r *corr.Run, prop, stream string, ops func() []string, op, impl 
 	return false
 }
 
+// violations counts the failing inputs found for the focus property (all, when no focus is set).
 func violations(r *corr.Run) int {
 	n := 0
 	for _, is := range r.Res.Issues {
-		if is.Kind == "violation" {
+		if is.Kind == "violation" && (focusProp == "" || is.Property == focusProp) {
 			n++
 		}
 	}
